@@ -54,6 +54,23 @@ CHECKS["C10"] = dict(
   technique="Lean 4 proof (inductive invariants over operation histories) + differential correspondence (go test -overlay with regenerated observer stubs, synctest virtual time)",
   design="§10 C10")
 
+CHECKS["C19"] = dict(
+  category="proof",
+  text="The model of this property is REGENERATED from /repo's sources on every run (translators/c19_regen.py: C record layouts, enums, #defines and maps from the unmodified tproxy.c via clang -target bpf; Go layouts for the 13 release GOARCHes + encoding/binary wire layouts, constants, ebpf tags, map call sites and the PARAM literal via go/types+go/ast) and the theorems are re-checked against it: layouts_agree (size, offset, width, count, signedness class of every mirrored field; every C member and Go field accounted for), consts_agree, limits_agree, shared maps/call-site widths, generated files = spec (decide +kernel over the whole regenerated tables), plus for-all theorems on the byte-level key constructors: tuples_key_bytes (all 40 bytes incl. zero padding, both IPv4 forms converge), reversed key, connectivity key (agreement, range, injectivity), listen keys, LPM keys, domain-routing keys, word order preservation; the explicit little-endian value encodings are proved for little-endian and refuted for big-endian targets. Validated by native and Go-side offsetof/sizeof programs and by comparing C-computed and Go-computed key bytes for the same logical entity.",
+  note="Trusted: Lean kernel + standard axioms; the two translators (cross-validated by clang -fdump-record-layouts, reflect/binary.Size and the natively compiled tproxy.c); the hand-written pairing table; bpf2go output is unavailable offline (stub types stand in); big-endian behaviour is theorem-only.",
+  technique="Lean 4 proof over a model regenerated from source (translation validation of layouts/constants + for-all theorems on key constructors) + native C / Go cross-checks",
+  design="§10 C19")
+CHECKS["C08"] = dict(
+  text="Lean theorems (unbounded: every configuration, every history of inserts, lookups, janitor runs, reload clones, config swaps, refresh clean-ups and removals, clocks that may jump): a served answer was stored by an insert of the history under exactly that canonical key (name case-insensitive, type, upstream scope), is fresh only before its deadline (reply TTL or the fixed TTL in force), stale only with optimistic caching inside the window, never after it (served_only_live_and_scoped); stale answers are served at once with needRefresh exactly when no refresh is in flight (at most one in flight per entry); shown TTL <= max(1, whole seconds left) + 15 (fresh_ttl_within_slack); the janitor evicts exactly the least recently used entries above max_cache_size for any map iteration order (janitor_evicts_least_recently_used, heap_selects_oldest). Tied to /repo by running the real DnsController (production insert path, LookupDnsRespCache_, janitor, clone/restore, backgroundRefresh) under testing/synctest virtual time with clocks aimed at every boundary ±1 ns.",
+  note="Trusted: Lean kernel + standard axioms; one LookupDnsRespCache_ call is one atomic step (the CAS on the refresh latch is not explored under real concurrency); miekg/dns Pack/Unpack; ASCII names; int64 time overflow not modelled.",
+  technique="Lean 4 proof (invariants over operation histories with explicit clock) + differential correspondence (go test -overlay, synctest virtual time)",
+  design="§10 C08")
+CHECKS["C15"] = dict(
+  text="Lean theorems over all histories of latency samples, alive/not-alive notifications and policy switches from NewDialerGroup: swap-remove bookkeeping stays consistent and no panic point is reachable (index_consistent); the cached best is alive and nil iff nobody is alive; selection returns a node alive in a consulted domain (data-UDP -> DNS-UDP -> TCP, other family when allowed), never the excluded node unless fixed or single-node last resort, errors iff all tried domains are empty; fixed(i) returns the i-th node; random returns an alive non-excluded node for every value of the random source; min policies return an unbeaten alive node and switch only when the documented tolerance gate allows (these tolerance theorems are _partial: they assume a node the set holds a latency for keeps reporting one — necessity witnessed in Lean). Tied to /repo by statement-level mirror runs of the real AliveDialerSet / DialerGroup / chooseProxyDialer through the production notification paths.",
+  note="Trusted: Lean kernel + standard axioms; fastrand answers compared as membership in the model's candidate set; concurrency/locking and int64 overflow not modelled; thresholds that decide when a node is reported dead are C16's subject.",
+  technique="Lean 4 proof (invariants over event histories) + differential correspondence (go test -overlay)",
+  design="§10 C15")
+
 def main():
     checks = []
     for pid in ALL:
